@@ -116,6 +116,15 @@ def layout_handler_semicolon_optional(dispatcher, node, before, after, prev):
         yield StreamFragment(';', lineno, colno, None, None)
 
 
+def layout_handler_semicolon_openbrace(dispatcher, node, before, after, prev):
+    # a semicolon in front of a block is never optional: automatic
+    # semicolon insertion does not restore it before a '{'.
+    for chunk in layout_handler_semicolon(
+            dispatcher, node, before, after, prev):
+        yield chunk
+    yield StreamFragment('{', 0, 0, None, None)
+
+
 def layout_handler_openbrace(dispatcher, node, before, after, prev):
     # required layout handler for the OpenBlock Format rule.
     _, lineno, colno = node.getpos('{', 0)
